@@ -165,7 +165,8 @@ func (s *Store[H]) deleteParallel(ctx context.Context, from, to uint64) (uint64,
 
 		workerCtx, done := s.withWriteBatch(ctx)
 		defer func() {
-			if err := done(); err != nil {
+			if err := done(); err != nil && last.height != 0 {
+				// (a worker that was given no height has nothing to commit and no progress to report)
 				last.err = errors.Join(last.err, fmt.Errorf("committing delete batch: %w", err))
 			}
 		}()
